@@ -341,15 +341,23 @@ func genSpec(g *hx.Rng, idx int, pat string, tier string) *spec {
 			far += time.Duration(g.Intn(2500)) * time.Millisecond
 		}
 		sp.maxOff = far
+		sp.k = []int{1, 1, 2, 16}[g.Intn(4)]
 		for pi := range p {
 			var plan []item
-			if pi == 0 || g.Bool() {
-				plan = append(plan, item{id: next(), off: far - time.Duration(g.Intn(1000))*time.Microsecond})
+			farAt := g.Intn(per + 1) // the far-future task arrives before, between or after the near ones
+			if pi > 0 && g.Chance(30) {
+				farAt = -1
 			}
-			for j := 0; j < per; j++ {
-				it := item{id: next(), off: logDur(g, 200*time.Millisecond)}
+			for j := 0; j <= per; j++ {
+				if j == farAt {
+					plan = append(plan, item{id: next(), off: far - time.Duration(g.Intn(1000))*time.Microsecond})
+				}
+				if j == per {
+					break
+				}
+				it := item{id: next(), off: 20*time.Millisecond + logDur(g, 180*time.Millisecond)}
 				if g.Chance(20) {
-					it.until = time.Duration(g.Intn(int(100 * time.Millisecond)))
+					it.until = time.Duration(g.Intn(int(20 * time.Millisecond)))
 				}
 				plan = append(plan, it)
 			}
@@ -542,8 +550,8 @@ func numCPU() int { return runtime.NumCPU() }
 // the timer object alone: real time.Timer against Model/Sched.Timer (differential)
 
 const (
-	tmArm   = 20 * time.Millisecond
-	tmSleep = 50 * time.Millisecond
+	tmArm   = 50 * time.Millisecond
+	tmSleep = 120 * time.Millisecond
 )
 
 type tmLine struct{ op, obs string }
@@ -593,7 +601,7 @@ func Run(o *hx.Out, g *hx.Rng, tier string) {
 		mode, map[string]int{"sync": 0, "async": 1}[mode], gd, runtime.NumCPU(), lateBound, quiescence))
 	o.Res.Rule = "distinct generated plans (pattern, k, per-producer deadline sequences); every case runs a fresh NewTimedSched in real time"
 
-	ncase, nfar, tmScripts, tmLen := 112, 3, 3, 24
+	ncase, nfar, tmScripts, tmLen := 112, 4, 3, 24
 	budget := 60 * time.Second
 	if tier != "quick" {
 		ncase, nfar, tmScripts, tmLen = 400, 12, 10, 40
